@@ -57,6 +57,10 @@ CLAIMED = {
    text='TLC checks the heap model SFHeap (buffers, arrays with their own writeable flag, containers, caller-held references; construct through immutable_filter, caller writes, obtaining arrays, view / copy derivations) exhaustively for small constants against AllFrozen, NoChange, CallerIsolated and ObtainedFrozen, with FilterBug as negative control; TLC simulation behaviours are replayed on real NumPy arrays and containers over route tables (a write the model refuses must raise, a write it allows must stay invisible), and SFGo behaviours check that static objects derived from grow-only ones never change; the interface sweep calls every public name (incl. operators) of 12 fixtures with an argument table, deep-snapshots every fixture before and after and probes every array reachable from every result; TLC (Trace_Heap) checks NoChange / AllFrozen per recorded call.',
    ref='DESIGN.md section 4 (C01)', note='Trusted: NumPy flags.writeable / shares_memory semantics. Flipping flags.writeable on an owning array is a NumPy operation outside the claim. matmul is excluded from the sweep (NumPy 2.5 segfaults in np.unique on its path).',
    technique='TLA+ heap model SFHeap model checked with TLC; simulation behaviours replayed into the code; recorded interface sweep validated by a TLC trace spec'),
+ 'C02': dict(
+   text='TLC checks the grow-only index at the grain of IndexGO.append (hash map or map-less auto-integer form, promotion rule, deferred rebuild of the cached label array, the rebuild as a separate step) for all append sequences: uniqueness, bijection through the implementation-shaped lookup, cache coherence, append-only (MC_C02, with a negative control that drops the promotion rule). TLC simulation behaviours are driven through a real IndexGO and the private map / recache / label state compared after every step. Recorded events are validated by Trace_C02: construction by 43 routes (flat, auto-integer, datetime; int, str, float, date, tuple, mixed-object, Boolean labels; 30 percent with a duplicate, which must be rejected with the index-initialisation error), 23 derivation routes whose expected labels are computed in TLA+ (selection, drop, roll, sort, relabel, level_add, head / tail, copies, set operations) from static, grow-only and stale-cache sources, hierarchical flat / level_drop / level_add / roll / selection (non-tree results must be rejected), isolation of derived indices from later growth of their source, and grow-only histories (plain, auto-integer, FrameGO columns, date, year-month) whose every append / extend / read must be the SFIndex transition; hierarchical grow-only histories are validated by Trace_C05.',
+   ref='DESIGN.md section 4 (C02)', note='NaN labels excluded (as in the property). Lookup of ABSENT labels is decided by C04; here only membership of absent labels and that they do not resolve to a position. Static hierarchical construction / selection is decided by C05 (same SFHier model).',
+   technique='TLA+ spec SFIndex (grow-only index state machine + per-route derived labels) model checked with TLC; simulation behaviours replayed into the code; recorded construction / derivation / growth events validated by TLC trace specs'),
  'C05': dict(
    text='TLC checks, for every tree-ordered label set of a small scope and every combination of per-level selectors, that the tree built with per-node offsets iterates to the table rows, that the label -> position walk through the tree (offset accumulation) is the table position, and that the transcribed breadth-first walk of IndexLevel.loc_to_iloc equals the declarative per-level selection and selects exactly the matching tuples (MC_C05); every enumerated selection is replayed through loc_to_iloc / ih.loc / Series / Frame; random trees of depth 2-4 built by 9 construction routes are observed through every view (iteration, 2-D values, per-depth values, length, depth, membership, lookups), random selections incl. innermost masks and grow-only histories (append / extend with cache-materialising reads in between) are recorded and validated by TLC (Trace_C05).',
    ref='DESIGN.md section 4 (C05)', note='Outside the claim (as in the property): selectors matching nothing, outer-depth masks; additionally slice selectors with a bound absent under some parent and list selectors naming a label twice.',
